@@ -67,6 +67,14 @@ inductive RespAct
   | clear              -- resp.Err = nil; return nil
   deriving DecidableEq, Repr, Inhabited
 
+/-- What a hook that is handed the response does to `resp.Err`: the `OnError` hook
+(`func(client, req, resp, err)`) and the retry hooks (`func(resp, err)`) may rewrite it. -/
+inductive HookAct
+  | nop
+  | set (e : Err)      -- resp.Err = e   (wrap / translate the error)
+  | clear              -- resp.Err = nil (recover)
+  deriving DecidableEq, Repr, Inhabited
+
 /-- Outcome of a transport exchange. -/
 inductive TOut
   | fail (e : Err)
@@ -147,6 +155,8 @@ structure Stack where
   code with fixes/C18-3-digest-download.patch (the model follows it), `false` = the code as found
   (the 401 challenge is what `SetOutput` saves, the answer to the authorized request never is) -/
   fixDigestSave : Bool := true
+  hookAct : HookAct := .nop            -- what the `OnError` hook does to the response it is handed
+  retryHooks : List HookAct := []      -- per attempt: what the retry hooks (run before the wait) do to it
   deriving Repr, Inhabited
 
 def Stack.udAt (s : Stack) (a : Nat) : List ReqAct := s.udReq.map (·.getD a .ok)
@@ -158,6 +168,13 @@ def Stack.clientAt (s : Stack) (a : Nat) : List RespAct := s.clientResp.map (·.
 def Stack.reqRespAt (s : Stack) (a : Nat) : List RAct := s.reqResp.map (·.getD a (.mw .nop))
 def Stack.outFailAt (s : Stack) (a : Nat) : Bool := s.outFails.getD a false
 def Stack.ctxDoneAt (s : Stack) (a : Nat) : Bool := s.ctxDone.getD a false
+def Stack.retryHookAt (s : Stack) (a : Nat) : HookAct := s.retryHooks.getD a .nop
+
+/-- A hook rewriting the recorded error of the response it is handed. -/
+def applyHook (r : Resp) : HookAct → Resp
+  | .nop => r
+  | .set e => { r with err := some e }
+  | .clear => { r with err := none }
 
 /-! ### Client.roundTrip -/
 
@@ -483,7 +500,9 @@ def doLoop (fx : Fixes) (s : Stack) : Nat → Nat → Option Resp → DoOut
     else if needRetry s a t.err then
       match t.resp with
       | none => crashOut t                                    -- `resp.body = nil` on a nil resp
-      | some r =>
+      | some r0 =>
+        -- `RetryAttempt++`, then the retry hooks (they are handed `resp`), then the wait
+        let r := applyHook r0 (s.retryHookAt a)
         if s.ctxDoneAt a then waitOut t r
         else
           let o := doLoop fx s fuel (a + 1) (some (cleanup r))
@@ -520,9 +539,13 @@ def run (fx : Fixes) (s : Stack) : Out :=
       match s.entry with
       | .do_ => .ret (some r) r.err 0 d.atts
       | _ =>
-        let hooks := if r.err.isSome ∧ s.hook then 1 else 0
-        match s.entry, r.err with
+        -- `Send`: `resp := r.Do(); if resp.Err != nil && onError != nil { onError(…, resp, resp.Err) };
+        -- return resp, resp.Err` — the error returned is read AFTER the hook ran
+        let fires : Bool := r.err.isSome && s.hook
+        let hooks := if fires then 1 else 0
+        let r1 := if fires then applyHook r s.hookAct else r
+        match s.entry, r1.err with
         | .must, some e => .mustPanic e hooks d.atts
-        | _, _ => .ret (some r) r.err hooks d.atts
+        | _, _ => .ret (some r1) r1.err hooks d.atts
 
 end Req.Pipeline
